@@ -37,7 +37,7 @@ for p in props:
           "engine":"rpcverif",
           "level_claimed":{"category":"other","text":"Static structural necessary conditions of the property, decided for all feasible CFG paths of all functions of package rpc on every run; not a proof of the behaviour (what is not decided is stated in evidence.coverage.not_decided and DESIGN.md).","design_ref":"DESIGN.md §3 "+p['id']},
           "level_note":"Trusted: go/types + go/ssa, lock identity by (struct,field), dependency behaviour, frozen rule tables (DESIGN.md §2).",
-          "technique":"static analysis: "+tech[p['id']]})
+          "technique":"static analysis: "+tech[p['id']]+"; plus source-level Go-semantics rules armed on the functions the property's anchors name (inner re-declaration read-after-scope on go/cfg, loop-variable capture by escaping closures on go/ssa)"})
 na=[{"property_id":p['id'],"reason":"check not yet built in this commit (work in progress; see DESIGN.md §3 for the planned static rules)"} for p in props if p['id'] not in tech]
 m={"version":1,
  "setup_cmd":"cd tool && GOFLAGS=-mod=mod GOPROXY=off GOSUMDB=off GOTOOLCHAIN=local GOWORK=off go build -o ../bin/rpcverif .",
